@@ -126,17 +126,24 @@ Definition parse_text_all (keys : list str) (dec : ltoken -> option N) (cs : str
   | None => None
   end.
 
+(* the same over the stream of the lexer before the repair of the `item` branch of consume_name (LexBind.lex_b_orig) *)
+Definition parse_text_all_orig (keys : list str) (dec : ltoken -> option N) (cs : str) : option etree :=
+  match lex_b_orig keys cs with
+  | Some ls => match eabs_b keys dec tstate0 ls with Some ts => eparse_tokens ts | None => None end
+  | None => None
+  end.
+
 (* ------------------------------------------------------------------ side conditions on the names *)
 
 Definition key_in (keys : list str) (n : N) : bool := (n <? N.of_nat (length keys))%N.
 
-(* type numbers are positions in type_words; member names, keys, variables and parameter names are positions in the scope keys;
-   the variable of an iteration / quantified context is not the name `item` *)
+(* type numbers are positions in type_words; member names, keys, variables and parameter names are positions in the scope keys
+   (nothing else about the variable of an iteration / quantified context: `item` is allowed since the repair of consume_name) *)
 Definition names_all (keys : list str) (t : etok) : bool :=
   match t with
   | XInst ty => (ty <? 6)%N
   | XDot n | XKey n | XPar n None => key_in keys n
   | XPar n (Some ty) => key_in keys n && (ty <? 6)%N
-  | XBind n => key_in keys n && negb (NM.str_eqb (nth_str keys n) NM.str_item)
+  | XBind n => key_in keys n
   | _ => true
   end.
